@@ -7,7 +7,7 @@ sed -i "$E" "$F"; git diff --stat -- exponax | tail -1
 [ -z "$(git status --porcelain -- exponax)" ] && { echo "sed changed nothing"; exit 2; }
 trap 'git -C /repo checkout -- exponax' EXIT
 for p in "$@"; do
-  out=$(cd /verif && ./check "$p" --tier "${TIER:-quick}" 2>/dev/null); rc=$?
+  out=$(cd /verif && VERIF_EVIDENCE_DIR=/tmp/seed/mx_evidence VERIF_REPLAY_DIR=/tmp/seed/mx_replays ./check "$p" --tier "${TIER:-quick}" 2>/dev/null); rc=$?
   echo "== $p rc=$rc :: $(echo "$out" | grep -c '^VIOLATION') violation line(s)"
   echo "$out" | grep -E '^  violation' | cut -c1-230 | head -${SHOW:-3}
 done
